@@ -174,6 +174,8 @@ func skeletonTerm(sk []string) string {
 			out = append(out, ".ifErr")
 		case "assert":
 			out = append(out, ".assert")
+		case "ifnotok-error":
+			out = append(out, ".ifNotOkErr")
 		case "ifnotok-panic":
 			out = append(out, ".ifNotOkPanic")
 		case "ret":
